@@ -1687,3 +1687,12 @@ TABLE["C01"] += [
     B("namespace-chain-innermost-first", {"G17"}, (IP + "utils.py", "        namespaces = [ancestor.name] + namespaces", "        namespaces = namespaces + [ancestor.name]")),
     N("namespace-chain-inserted-in-front", (IP + "utils.py", "        namespaces = [ancestor.name] + namespaces", "        namespaces.insert(0, ancestor.name)")),
 ]
+TIH = "gtwrap/template_instantiator/helpers.py"
+TABLE["C02"] += [
+    B("nested-walk-stops-at-the-first-concrete-argument", {"S2"},
+      (TIH, "            else:\n                instantiate_template_args(instantiation)\n", "            elif not instantiation.instantiations:\n                return\n            else:\n                instantiate_template_args(instantiation)\n")),
+    B("nested-walk-first-argument-only", {"S2"},
+      (TIH, "            else:\n                instantiate_template_args(instantiation)\n", "            else:\n                instantiate_template_args(instantiation)\n            break\n")),
+    N("nested-walk-skips-leaves-explicitly", (TIH, "            else:\n                instantiate_template_args(instantiation)\n",
+                                              "            elif not instantiation.instantiations:\n                continue\n            else:\n                instantiate_template_args(instantiation)\n")),
+]
